@@ -365,7 +365,8 @@ pub fn run_history(id: usize, env: &Env, init_a: &Tree, init_b: &Tree, ops: &[Op
         states.push(format!("A={};B={};Z={};X={};P={}", tree_str(&a), tree_str(&b), arch_str(&env.archive_entries().map(|m| m.into_iter().map(|(p, d)| (p, d[..12].to_string())).collect())), exit, plan));
     }
     // ---- C06: swapping which directory is named first yields the same bytes at every path
-    if swap_check {
+    // (not for histories with an injected I/O fault: the k-th file-system call of the swapped run is another call)
+    if swap_check && !ops.iter().any(|o| matches!(o, Op::RunFault(_))) {
         let fa = read_tree(&env.a);
         let fb = read_tree(&env.b);
         let env2 = Env::new(&env.copia, &format!("{}-swap", env.dir));
